@@ -278,3 +278,9 @@ def literal_axioms(used):
 
 
 REG.axiom_hooks.append(literal_axioms)
+
+
+@spec_function()
+def holds(ex, st, c, w):
+    """the (abstract) constraint c is true in the world w (an assignment of runtime values to the program's variables)"""
+    return S_bool(uf("cons_holds", V, V, BoolS)(box(c, st), box(w, st)))
